@@ -2,6 +2,7 @@ package sim
 
 import (
 	"fmt"
+	"github.com/attestantio/dirk/services/checker"
 	"runtime"
 	"sync"
 	"testing"
@@ -62,12 +63,24 @@ func newBatchWorld(t *testing.T, rc *RunCtx, twin bool) *batchWorld {
 	s.KeyName = pop.KeyName
 	w := &batchWorld{rc: rc, t: t, pop: pop, s: s}
 	var err error
-	w.a, err = NewInstance(s, "A", InstCfg{Dir: NewRunDir(t), Pop: pop, Permissions: FullPermissions("client1"), AdminIPs: []string{"10.0.0.1"}})
+	// The client is authorised for everything it asks; how that is written down is drawn (a plain "All", the
+	// operations spelled out, an explicit trailing "None" - which every list has implicitly -, a denial of an
+	// unrelated operation).
+	perms := FullPermissions("client1")
+	switch rc.Ch.Pick(4, 0) {
+	case 1:
+		perms = map[string][]*checker.Permissions{"client1": {{Path: ".*", Operations: []string{"Sign beacon attestation", "Sign beacon proposal", "Sign", "Access account", "None"}}}}
+	case 2:
+		perms = map[string][]*checker.Permissions{"client1": {{Path: ".*", Operations: []string{"All", "None"}}}}
+	case 3:
+		perms = map[string][]*checker.Permissions{"client1": {{Path: "Big", Operations: []string{"Sign beacon attestation", "Sign beacon proposal", "Sign", "~Lock wallet", "~Create account"}}}}
+	}
+	w.a, err = NewInstance(s, "A", InstCfg{Dir: NewRunDir(t), Pop: pop, Permissions: perms, AdminIPs: []string{"10.0.0.1"}})
 	if err != nil {
 		t.Fatalf("instance A: %v", err)
 	}
 	if twin {
-		w.b, err = NewInstance(s, "B", InstCfg{Dir: NewRunDir(t), Pop: pop, Permissions: FullPermissions("client1"), AdminIPs: []string{"10.0.0.1"}})
+		w.b, err = NewInstance(s, "B", InstCfg{Dir: NewRunDir(t), Pop: pop, Permissions: perms, AdminIPs: []string{"10.0.0.1"}})
 		if err != nil {
 			t.Fatalf("instance B: %v", err)
 		}
@@ -355,6 +368,18 @@ func runBatch(t *testing.T, rc *RunCtx, prop string) {
 				e.Domain[0] = 6
 			}
 			o.Entries = []Entry{e}
+		}
+		if prop == "C08" && (kind == "atts" || kind == "multi") && len(o.Entries) >= 2 && ch.Pick(6, 0) == 5 {
+			// one entry of the batch cannot be signed at all (its domain is not 32 bytes long); the entries around
+			// it are ordinary and their signatures must be what they would have been without it
+			bad := ch.Pick(len(o.Entries), 0)
+			d := o.Entries[bad].Domain
+			if ch.Pick(2, 0) == 1 {
+				o.Entries[bad].Domain = append(append([]byte{}, d...), 0x44)
+			} else {
+				o.Entries[bad].Domain = append([]byte{}, d[:31]...)
+			}
+			rc.Stats.Inc("probe_batches_with_one_unsignable_entry", 1)
 		}
 		scheduled := len(o.Entries) <= 48
 		w.a.RulesW.Calls = nil
